@@ -3,7 +3,8 @@
 Oracle: lattice-equivalence checker against the generating grain.  For the
 true UB_t, a candidate UBI is right iff M = UBI.UB_t is an integer matrix with
 det +1 and UBI.UBI^T is the cell metric.  Degenerate angle classes are found by
-the harness by enumerating every hkl pair on the two rings.
+the harness by enumerating every hkl pair on the two rings and splitting each
+equal-angle class into its symmetry-inequivalent sub-classes.
 """
 import numpy as np
 from .. import xtal
@@ -11,17 +12,26 @@ from ..common import rng
 
 TECHNIQUE = ("runtime oracle monitor: lattice-equivalence check (integer unimodular M = UBI.UB_true, metric "
              "preserved, right-handed) of every orientation returned by unitcell.orient for simulated g-vector pairs; "
-             "harness enumeration of degenerate angle classes")
-LEVEL_TEXT = ("Exploration: for generated lattices (seven systems + pseudo-symmetric cells, all centrings), random "
-              "rotations, every ring pair below a d* limit (same-ring pairs included) and sampled non-collinear hkl pairs "
-              "- not only those filter_pairs kept - unitcell.orient is called in nearest-pair and cosine-range mode and every "
-              "returned candidate is judged against the generating grain; candidate lists are checked pairwise for duplicates.")
+             "harness enumeration of degenerate angle classes and of their symmetry-inequivalent sub-classes")
+LEVEL_TEXT = ("Exploration: for generated lattices (seven systems + pseudo-symmetric cells, conventional centrings incl. R on "
+              "hexagonal axes, plus arbitrary centring/cell combinations), rotations (Haar, identity, axis-aligned, 180 deg), ring "
+              "pairs drawn over all rings below a d* limit (same-ring pairs included), ONE hkl pair from every symmetry-inequivalent "
+              "sub-class of every equal-angle class (not only those filter_pairs kept) plus random extra pairs: unitcell.orient "
+              "is called in nearest-pair mode and in cosine-range mode with crange in {0.002, 0.02, 0.1, 0.5, 2.5}, with exact g-vectors and "
+              "with g-vectors perturbed by 1e-4 (noise or a strained/rotated generating grain); every returned candidate is judged "
+              "against the generating grain, candidate lists are checked pairwise for duplicates, getanglehkls tables are checked "
+              "for order/consistency, and the module-level orient_BL is checked on the true pair.")
 LEVEL_NOTE = ("Trusts harness B matrix and Busing-Levy construction used to classify degenerate angle classes; "
-              "near-collinear pairs (|cos|>=0.98) excluded as filter_pairs documents; integer tolerance 1e-6.")
+              "near-collinear pairs (|cos|>=0.98) excluded as filter_pairs documents; integer tolerance 1e-6 for exact g "
+              "(plus the actual d* width of the ring and the 2.1e-8 cosine cluster width of filter_pairs), "
+              "cond(B).noise.(1+2/sin(angle)) for perturbed g.")
 
-RULE = ("a case = (cell, centring, rotation, ring pair, hkl pair, mode); non-trivial = the angle class holds more "
-        "than one hkl pair (symmetry-degenerate) or rings differ; distinct = (cell kind, centring, ring pair, "
+RULE = ("a case = (cell, centring, rotation, ring pair, hkl pair, mode, exact/perturbed g); non-trivial = the angle class holds "
+        "more than one hkl pair (symmetry-degenerate) or rings differ; distinct = (cell kind, centring, ring pair, "
         "sorted |hkl| pair, mode)")
+
+NOISE = 1e-4
+CRANGES = (0.002, 0.02, 0.1, 0.5, 2.5)
 
 
 def bl_ubi(B, ha, hb, g1, g2):
@@ -61,30 +71,65 @@ def pseudo_cell(r, j):
     return [float(x) for x in opts[j % len(opts)]]
 
 
+# conventional centrings of each lattice system (hexagonal axes carry the R lattice); monoclinic is generated with
+# unique axis b, where A, C and I are the three settings of the one centred monoclinic lattice
+CENTRINGS = {"cubic": "PIF", "tetragonal": "PI", "orthorhombic": "PCIFAB", "monoclinic": "PCAI",
+             "hexagonal": "PR", "rhombohedral": "P", "triclinic": "P"}
+NPSEUDO = 6
+ROTKINDS = ["haar", "haar", "haar", "haar", "identity", "axis90", "pi", "near-identity"]
+
+
+def gen_rotation(r, kind):
+    if kind == "axis90":
+        # signed permutation matrix with det +1 (a 90/180/120 degree rotation of the cube group)
+        while True:
+            P = np.zeros((3, 3))
+            for i, j in enumerate(r.permutation(3)):
+                P[i, j] = r.choice([-1.0, 1.0])
+            if np.linalg.det(P) > 0:
+                return P
+    return xtal.random_rotation(r, kind)
+
+
 def one_case(run, seed, idx, unitcell):
     r = rng(seed, "C05", idx)
-    if idx % 4 == 3:
+    # one stratified pass (7 lattice systems, 6 pseudo-symmetric cells, R centring), afterwards everything is drawn from
+    # the case's own rng so that no two dimensions are tied together through idx
+    nstrat = 7 + NPSEUDO
+    if idx < 7:
+        kind = xtal.KINDS[idx]
+    elif idx < nstrat:
         kind = "pseudo"
-        cell = pseudo_cell(r, idx // 4)
+    else:
+        kind = "pseudo" if r.random() < 0.25 else xtal.KINDS[int(r.integers(7))]
+    if kind == "pseudo":
+        cell = pseudo_cell(r, idx - 7 if idx < nstrat else int(r.integers(NPSEUDO)))
         sym = "P"
     else:
-        kind = xtal.KINDS[idx % 7]
         cell = xtal.random_cell(r, kind, 3.0, 9.0)
-        sym = {"cubic": "PIF", "tetragonal": "PI", "orthorhombic": "PCIFAB", "monoclinic": "PC",
-               "hexagonal": "P", "rhombohedral": "P", "triclinic": "P"}[kind]
+        sym = CENTRINGS[kind]
         sym = sym[int(r.integers(len(sym)))]
+        if kind == "hexagonal" and idx < nstrat:
+            sym = "R"                                  # guaranteed once per run
+        elif r.random() < 0.15:
+            sym = "PABCIFR"[int(r.integers(7))]        # any centring on any cell is still a lattice
+    run.count("centring:" + sym)
     B = xtal.Bmat(cell)
     G = xtal.metric(cell)
     V = np.sqrt(np.linalg.det(G))
-    # d* limit giving ~ 60-250 lattice points
-    dsmax = float((r.uniform(60, 250) / (4.19 * V)) ** (1 / 3.0))
+    # d* limit giving ~ 60-250 lattice points of the primitive cell (up to 600 in the thorough tier)
+    npts = r.uniform(60, 250) if (run.tier == "quick" or r.random() < 0.5) else r.uniform(250, 600)
+    dsmax = float((npts / (4.19 * V)) ** (1 / 3.0))
     uc = unitcell.unitcell(cell, sym)
-    R = xtal.random_rotation(r, "haar")
+    rotk = ROTKINDS[idx % len(ROTKINDS)] if idx < len(ROTKINDS) else ROTKINDS[int(r.integers(len(ROTKINDS)))]
+    R = gen_rotation(r, rotk)
+    run.count("rotation:" + rotk)
     UB_t = R @ B
     # history on ONE unitcell object: rings are re-made with other tolerances (this changes ring membership and
     # numbering for pseudo-symmetric cells); every orientation request afterwards must still be answered for the
     # rings as they are now
-    tols = [1e-4] if idx % 3 else [1e-4, 2e-2, 1e-4, 5e-3]
+    tols = [1e-4, 2e-2, 1e-4, 5e-3] if (idx % 3 == 0 if idx < nstrat else r.random() < 0.34) else [1e-4]
+    ctx = dict(index=idx, cell=cell, sym=sym, kind=kind, rot=rotk)
     for hstep, tol in enumerate(tols):
         try:
             uc.makerings(dsmax, tol)
@@ -93,129 +138,318 @@ def one_case(run, seed, idx, unitcell):
             return
         if hstep:
             run.count("rering_history_steps")
-        run_pairs(run, r, idx, uc, unitcell, cell, sym, kind, B, G, UB_t, tol, hstep)
+        run_pairs(run, r, ctx, uc, unitcell, B, G, UB_t, tol, hstep)
 
 
-def run_pairs(run, r, idx, uc, unitcell, cell, sym, kind, B, G, UB_t, tol, hstep):
+def subclasses(B, h1s, h2s, members):
+    """split the hkl pairs of one equal-angle class into symmetry-equivalence sub-classes: p ~ q iff the Busing-Levy
+    orientation that indexes the g-vectors of p as q is lattice-equivalent to the identity orientation.  Returns a
+    list of lists of (i, j)."""
+    left = [tuple(m) for m in members]
+    out = []
+    while left:
+        a0, b0 = left[0]
+        g1, g2 = B @ h1s[a0], B @ h2s[b0]
+        same, rest = [left[0]], []
+        for (a, b) in left[1:]:
+            if equivalent(bl_ubi(B, h1s[a], h2s[b], g1, g2), B):
+                same.append((a, b))
+            else:
+                rest.append((a, b))
+        out.append(same)
+        left = rest
+    return out
+
+
+def check_table(run, uc, B, r1, r2, desc):
+    """getanglehkls(ring1, ring2): what orient's searchsorted / range lookup relies on"""
+    hab, c2ab, matrs = uc.getanglehkls(int(r1), int(r2))
+    run.count("anglehkl_tables_checked")
+    c = np.asarray(c2ab, float)
+    if not (len(hab) == len(c) == len(matrs)):
+        run.violation("getanglehkls:lengths", "getanglehkls returns %d pairs, %d cosines, %d matrices"
+                      % (len(hab), len(c), len(matrs)), desc)
+        return
+    if len(c) > 1 and (np.diff(c) < 0).any():
+        run.violation("getanglehkls:order", "cosine table is not ascending (orient looks it up with searchsorted)", desc)
+    for k_, (ha, hb) in enumerate(hab):
+        ga, gb = B @ np.asarray(ha, float), B @ np.asarray(hb, float)
+        cc = float(ga @ gb / np.sqrt((ga @ ga) * (gb @ gb)))
+        # the table cosine is that of the first pair of a cluster that spans < 2.1e-8 (filter_pairs), the pair kept may be
+        # any member of the cluster
+        if abs(cc - c[k_]) > 2.2e-8 or abs(c[k_]) >= 0.98 + 3e-8:
+            run.violation("getanglehkls:cosine", "table entry %d: cos %.12g listed for pair %r %r whose cosine is %.12g"
+                          % (k_, c[k_], tuple(ha), tuple(hb), cc), desc)
+            break
+
+
+def run_pairs(run, r, ctx, uc, unitcell, B, G, UB_t, tol, hstep):
     nr = len(uc.ringds)
     if nr < 1:
         return
-    maxpairs = 15 if run.tier == "quick" else 25
-    maxhk = 30 if run.tier == "quick" else 60
+    quick = run.tier == "quick"
+    maxpairs = 9 if quick else 16
+    maxreps = 36 if quick else 60
+    nextra = 4 if quick else 6
     if hstep:
-        maxpairs, maxhk = maxpairs // 2, maxhk // 3
-    rp = [(i, j) for i in range(min(nr, 8)) for j in range(i, min(nr, 8))]
-    if len(rp) > maxpairs:
-        sel = r.choice(len(rp), maxpairs, replace=False)
-        rp = [rp[k] for k in sorted(sel)]
+        maxpairs, maxreps, nextra = maxpairs // 2, maxreps // 3, 2
+    # ring pairs: half of them among the first 8 rings (low multiplicity, the ones indexing uses), the rest anywhere
+    lo = [(i, j) for i in range(min(nr, 8)) for j in range(i, min(nr, 8))]
+    hi = [(i, j) for i in range(nr) for j in range(i, nr) if j >= 8]
+    rp = []
+    for pool, cnt in ((lo, maxpairs - maxpairs // 2 if hi else maxpairs), (hi, maxpairs // 2)):
+        if len(pool) > cnt:
+            sel = r.choice(len(pool), cnt, replace=False)
+            pool = [pool[k] for k in sorted(sel)]
+        rp += pool
+    condB = float(np.linalg.cond(B))
     for (r1, r2) in rp:
         h1s = np.array(uc.ringhkls[uc.ringds[r1]], float)
         h2s = np.array(uc.ringhkls[uc.ringds[r2]], float)
         if len(h1s) * len(h2s) > 3000:
             run.count("ringpairs_skipped_too_large")
             continue
+        if r2 >= 8:
+            run.count("ringpairs_beyond_ring_8")
         g1s = h1s @ B.T
         g2s = h2s @ B.T
         n1 = np.sqrt((g1s * g1s).sum(axis=1))
         n2 = np.sqrt((g2s * g2s).sum(axis=1))
+        # actual d* width of the two rings (0 unless different reflections overlap within the ring tolerance)
+        w1 = float(n1.max() - n1.min())
+        w2 = float(n2.max() - n2.min())
         cosm = (g1s @ g2s.T) / np.outer(n1, n2)
         cand = np.argwhere(np.abs(cosm) < 0.98 - 1e-6)
         if len(cand) == 0:
             continue
-        if len(cand) > maxhk:
-            cand = cand[r.choice(len(cand), maxhk, replace=False)]
-        for (i, j) in cand:
+        rdesc = dict(ctx, ring1=int(r1), ring2=int(r2), ring_tol=tol, history_step=hstep)
+        check_table(run, uc, B, r1, r2, rdesc)
+        # equal-angle classes of the candidate pairs (same 1e-6 window as before: a pair belongs to the class of every
+        # pair within 1e-6, classes are the connected groups of the sorted cosines), then symmetry sub-classes
+        cv = cosm[cand[:, 0], cand[:, 1]]
+        order = np.argsort(cv, kind="stable")
+        cuts = np.nonzero(np.diff(cv[order]) >= 1e-6)[0] + 1
+        groups = np.split(order, cuts)
+        allcos = np.sort(cosm.ravel())
+        todo = []          # (i, j, class size, number of sub-classes, is_representative)
+        for gidx in groups:
+            members = cand[gidx]
+            subs = subclasses(B, h1s, h2s, members)
+            run.count("angle_classes")
+            run.count("angle_subclasses", len(subs))
+            for sc_ in subs:
+                i, j = sc_[int(r.integers(len(sc_)))]
+                todo.append((i, j, len(members), len(subs), True))
+        if len(todo) > maxreps:
+            run.count("ringpairs_with_subsampled_subclasses")
+            sel = r.choice(len(todo), maxreps, replace=False)
+            todo = [todo[k] for k in sorted(sel)]
+        else:
+            run.count("ringpairs_with_every_subclass_tested")
+        # a few arbitrary pairs on top (any member of any class, representative or not)
+        for k in r.choice(len(cand), min(nextra, len(cand)), replace=False):
+            i, j = cand[k]
+            gsel = [gidx for gidx in groups if k in gidx][0]
+            todo.append((int(i), int(j), len(gsel), None, False))
+        for (i, j, csize, nsub, isrep) in todo:
             h1, h2 = h1s[i], h2s[j]
-            g1, g2 = UB_t @ h1, UB_t @ h2
-            ct = cosm[i, j]
-            # harness: all pairs within a cos window and whether they are equivalent to the true one
-            win = np.argwhere(np.abs(cosm - ct) < 1e-6)
-            ndeg = 0
-            for (a, b) in win:
-                alt = bl_ubi(B, h1s[a], h2s[b], g1, g2)
-                if not equivalent(alt, UB_t):
-                    ndeg += 1
-            degenerate = ndeg > 0
-            desc = dict(index=idx, cell=cell, sym=sym, kind=kind, ring1=int(r1), ring2=int(r2), ring_tol=tol, history_step=hstep,
-                        h1=h1.tolist(), h2=h2.tolist(), cos=float(ct), class_size=int(len(win)),
-                        inequivalent_in_class=int(ndeg))
-            for mode, crange in (("nearest", -1.0), ("range", 0.002)):
-                run.case((kind, sym, int(r1), int(r2), tuple(sorted((tuple(np.abs(h1)), tuple(np.abs(h2))))), mode, hstep),
-                         nontrivial=(len(win) > 1 or r1 != r2),
-                         sample=dict(desc, mode=mode))
-                try:
-                    uc.orient(int(r1), g1.copy(), int(r2), g2.copy(), crange=crange)
-                except Exception as e:
-                    run.violation("orient:exception:%s" % type(e).__name__,
-                                  "orient raised %s: %s" % (type(e).__name__, e), dict(desc, mode=mode))
-                    continue
-                ubis = [np.array(u) for u in uc.UBIlist]
-                run.count("orient_calls")
-                run.count("candidates_checked", len(ubis))
-                key_cls = "degenerate" if degenerate else "nondegenerate"
-                # every candidate: right handed, metric of the cell
-                for u in ubis:
-                    if not np.linalg.det(u) > 0:
-                        run.violation("orient:left-handed", "candidate UBI is left handed", dict(desc, mode=mode))
-                    if np.abs(u @ u.T - G).max() > 1e-8 * np.abs(G).max():
-                        run.violation("orient:metric", "candidate UBI does not have the cell's metric tensor",
-                                      dict(desc, mode=mode))
-                eq = [equivalent(u, UB_t) for u in ubis]
-                if mode == "range":
-                    if not any(eq):
-                        run.violation("orient:range:no-equivalent-candidate:" + key_cls,
-                                      "UBIlist (crange=%g, %d candidates) holds no orientation equivalent to the "
-                                      "generating grain for h1=%r h2=%r" % (crange, len(ubis), h1.tolist(), h2.tolist()),
-                                      dict(desc, mode=mode))
-                    for a in range(len(ubis)):
-                        for b in range(a + 1, len(ubis)):
-                            M = ubis[a] @ np.linalg.inv(ubis[b])
-                            if np.abs(M - np.round(M)).max() < 1e-6 and abs(abs(np.linalg.det(np.round(M))) - 1) < 1e-9:
-                                run.violation("orient:range:duplicate-candidates",
-                                              "two candidates in UBIlist describe the same lattice",
-                                              dict(desc, mode=mode))
+            ct = float(cosm[i, j])
+            if nsub is None:
+                win = np.argwhere(np.abs(cosm - ct) < 1e-6)
+                g1e, g2e = UB_t @ h1, UB_t @ h2
+                nsub = 1 + int(any(not equivalent(bl_ubi(B, h1s[a], h2s[b], g1e, g2e), UB_t) for (a, b) in win))
+            degenerate = nsub > 1
+            # distance to the nearest cosine of any OTHER class on this ring pair (decides whether a perturbed pair can
+            # still be told apart in nearest mode)
+            other = allcos[np.abs(allcos - ct) >= 1e-6]
+            gap = float(np.abs(other - ct).min()) if len(other) else 2.0
+            desc = dict(rdesc, h1=h1.tolist(), h2=h2.tolist(), cos=ct, class_size=int(csize),
+                        inequivalent_in_class=int(nsub - 1), representative=bool(isrep))
+            variants = [("exact", None)]
+            if r.random() < 0.3:
+                variants.append(("noise" if r.random() < 0.5 else "strain", None))
+            for vname, _ in variants:
+                if vname == "exact":
+                    g1, g2 = UB_t @ h1, UB_t @ h2
+                    nu = 0.0
+                elif vname == "noise":
+                    # independent relative perturbation of the two observed vectors, |dg|/|g| <= NOISE
+                    d1, d2 = r.normal(size=3), r.normal(size=3)
+                    g1 = UB_t @ h1
+                    g2 = UB_t @ h2
+                    g1 = g1 + NOISE * np.sqrt(g1 @ g1) * d1 / np.sqrt(d1 @ d1)
+                    g2 = g2 + NOISE * np.sqrt(g2 @ g2) * d2 / np.sqrt(d2 @ d2)
+                    nu = NOISE
                 else:
+                    # the generating grain has a slightly different cell and orientation: g = (I + E) UB_t h
+                    E = r.uniform(-NOISE, NOISE, (3, 3)) / 2
+                    nu = float(np.linalg.norm(E, 2))
+                    g1, g2 = (np.eye(3) + E) @ (UB_t @ h1), (np.eye(3) + E) @ (UB_t @ h2)
+                if vname != "exact":
+                    run.count("perturbed_pairs")
+                # |M - round(M)| <= cond(B) . (rotation error): the g1 direction is off by <= nu, the plane normal by
+                # <= 2 nu / sin(angle); for the strained grain the reference UB_t itself is off by nu.  Factor 1.5 margin.
+                sin_t = np.sqrt(max(1 - ct * ct, 1e-12))
+                eqtol = 1e-6 if nu == 0 else 1e-6 + 1.5 * condB * nu * (2 + 2 / sin_t)
+                # cosine ranges: what indexing uses (0.002, 0.02), wide (0.1) and very wide (0.5; 2.5 = every pair kept
+                # for the ring pair).  Measured on the unchanged tree: up to 0.1 the range never holds two pairs that give
+                # the same orientation, so only the wide ones make ubi_equiv remove anything.
+                crw = float(CRANGES[int(r.integers(len(CRANGES)))])
+                for mode, crange in (("nearest", -1.0), ("range", crw)):
+                    run.case((ctx["kind"], ctx["sym"], int(r1), int(r2),
+                              tuple(sorted((tuple(np.abs(h1)), tuple(np.abs(h2))))), mode, hstep, vname),
+                             nontrivial=(csize > 1 or r1 != r2),
+                             sample=dict(desc, mode=mode, g=vname))
+                    mdesc = dict(desc, mode=mode, g=vname, crange=crange)
+                    try:
+                        uc.orient(int(r1), g1.copy(), int(r2), g2.copy(), crange=crange)
+                    except Exception as e:
+                        run.violation("orient:exception:%s" % type(e).__name__,
+                                      "orient raised %s: %s" % (type(e).__name__, e), mdesc)
+                        continue
+                    ubis = np.array([np.array(u, float) for u in uc.UBIlist]).reshape(-1, 3, 3)
+                    run.count("orient_calls")
+                    run.count("candidates_checked", len(ubis))
+                    key_cls = "degenerate" if degenerate else "nondegenerate"
+                    # every candidate: right handed, metric of the cell
+                    if len(ubis):
+                        if not (np.linalg.det(ubis) > 0).all():
+                            run.violation("orient:left-handed", "candidate UBI is left handed", mdesc)
+                        mts = np.einsum("nij,nkj->nik", ubis, ubis)
+                        if np.abs(mts - G[None]).max() > 1e-8 * np.abs(G).max():
+                            run.violation("orient:metric", "candidate UBI does not have the cell's metric tensor", mdesc)
+                    if mode == "range":
+                        run.count("range_calls:crange=%g" % crange)
+                        if len(ubis) > 1:
+                            run.count("range_calls_with_several_candidates")
+                        Ms = ubis @ UB_t
+                        Mr = np.round(Ms)
+                        eq = (np.abs(Ms - Mr).reshape(len(ubis), -1).max(axis=1) <= eqtol) & \
+                             (np.abs(np.linalg.det(Mr) - 1) < 1e-9) if len(ubis) else np.zeros(0, bool)
+                        if not eq.any():
+                            run.violation("orient:range:no-equivalent-candidate:" + key_cls,
+                                          "UBIlist (crange=%g, %d candidates, %s g-vectors) holds no orientation equivalent to the "
+                                          "generating grain for h1=%r h2=%r" % (crange, len(ubis), vname, h1.tolist(), h2.tolist()),
+                                          mdesc)
+                        if len(ubis) > 1:
+                            # never two candidates describing the same lattice: M_ab = UBI_a . inv(UBI_b) integer, det +-1
+                            inv = np.linalg.inv(ubis)
+                            Mab = np.einsum("aij,bjk->abik", ubis, inv)
+                            Rab = np.round(Mab)
+                            # Decided only when beyond doubt: the candidates are products of the cached BT matrices and
+                            # one orthonormal triad, so two that are the same lattice agree to rounding (~1e-14).  ubi_equiv
+                            # itself calls two candidates equal when sum |h - round(h)| over its 15 probe hkl is <= 1e-8,
+                            # i.e. |M - round(M)| <~ 6e-12.  A cell that is symmetric only to 9 digits (the pseudo-bcc cell
+                            # with alpha = 109.4712206) gives candidates 1e-9 apart: they are NOT the same lattice, and they
+                            # are counted, not judged (false alarm of the first version of this check at crange = 2.5).
+                            dev = np.abs(Mab - Rab).reshape(len(ubis), len(ubis), 9).max(axis=2)
+                            unimod = np.abs(np.abs(np.linalg.det(Rab)) - 1) < 1e-9
+                            same = (dev < 1e-11) & unimod
+                            near = (dev >= 1e-11) & (dev < 1e-6) & unimod
+                            same[np.tril_indices(len(ubis))] = False
+                            near[np.tril_indices(len(ubis))] = False
+                            if near.any():
+                                run.count("candidate_pairs_same_lattice_only_to_1e-6_undecided", int(near.sum()))
+                            if same.any():
+                                a_, b_ = np.argwhere(same)[0]
+                                run.violation("orient:range:duplicate-candidates",
+                                              "two candidates in UBIlist (%d and %d of %d, crange=%g) describe the same lattice"
+                                              % (a_, b_, len(ubis), crange), mdesc)
+                        continue
+                    # nearest mode
                     u = np.array(uc.UBI)
-                    hk1, hk2 = u @ g1, u @ g2
-                    # members of one ring may differ in d* by up to the ring tolerance, so the
-                    # hkl given to a reflection assigned to another member of its ring is integer
-                    # only to |h|.tol/d* (DESIGN.md Corrections)
-                    it1 = 1e-6 + 2 * tol / n1[i] * max(1.0, np.abs(np.round(hk1)).max())
-                    it2 = 1e-6 + 2 * tol / n2[j] * max(1.0, np.abs(np.round(hk2)).max())
-                    integer = np.abs(hk1 - np.round(hk1)).max() < it1 and np.abs(hk2 - np.round(hk2)).max() < it2
-                    if not integer:
-                        run.violation("orient:nearest:non-integer-hkl",
-                                      "orient().UBI gives non-integer hkl to the two reflections: %r %r"
-                                      % (hk1.tolist(), hk2.tolist()), dict(desc, mode=mode))
-                    else:
-                        # must be members of the two rings
-                        d1 = np.sqrt(((B @ np.round(hk1)) ** 2).sum())
-                        d2 = np.sqrt(((B @ np.round(hk2)) ** 2).sum())
-                        if abs(d1 - n1[i]) > 2 * tol or abs(d2 - n2[j]) > 2 * tol:
-                            run.violation("orient:nearest:wrong-ring", "assigned hkl not on the requested rings",
-                                          dict(desc, mode=mode))
-                    if not degenerate:
-                        run.count("nearest_nondegenerate")
-                        if not equivalent(u, UB_t):
-                            run.violation("orient:nearest:not-equivalent",
-                                          "orient().UBI is not lattice-equivalent to the generating grain although the "
-                                          "angle class is non-degenerate (h1=%r h2=%r)" % (h1.tolist(), h2.tolist()),
-                                          dict(desc, mode=mode))
-                        # then every reflection of the grain gets integer hkl
-                    else:
+                    if vname == "exact":
+                        hk1, hk2 = u @ g1, u @ g2
+                        # members of one ring may differ in d* by the ring's width (not more), so the hkl given to a
+                        # reflection assigned to another member of its ring is integer only to |h|.width/d* (DESIGN.md
+                        # Corrections); the pair kept by filter_pairs may sit anywhere in a cosine cluster of width
+                        # < 2.1e-8 (unitcell.py assert), i.e. the in-plane angle is off by < 2.1e-8/sin(angle) rad,
+                        # which moves hkl2 by |h2| times that
+                        hm1 = max(1.0, np.abs(np.round(hk1)).max())
+                        hm2 = max(1.0, np.abs(np.round(hk2)).max())
+                        # radial part exactly: hk = h' |g| / d*(h')  =>  |hk - h'| = |h'| . | |g| - d*(h') | / d*(h')
+                        #                                              <= |h'| . width / min d* of the ring (1 % margin)
+                        it1 = 1e-6 + 1.01 * w1 / n1.min() * hm1
+                        it2 = 1e-6 + 1.01 * w2 / n2.min() * hm2 + 3 * hm2 * 2.1e-8 / sin_t
+                        integer = np.abs(hk1 - np.round(hk1)).max() < it1 and np.abs(hk2 - np.round(hk2)).max() < it2
+                        if not integer:
+                            run.violation("orient:nearest:non-integer-hkl",
+                                          "orient().UBI gives non-integer hkl to the two reflections: %r %r (allowed %.3g, %.3g)"
+                                          % (hk1.tolist(), hk2.tolist(), it1, it2), mdesc)
+                        else:
+                            # must be members of the two rings
+                            d1 = np.sqrt(((B @ np.round(hk1)) ** 2).sum())
+                            d2 = np.sqrt(((B @ np.round(hk2)) ** 2).sum())
+                            if not (n1.min() - 1e-9 <= d1 <= n1.max() + 1e-9 and n2.min() - 1e-9 <= d2 <= n2.max() + 1e-9):
+                                run.violation("orient:nearest:wrong-ring", "assigned hkl not on the requested rings", mdesc)
+                    if degenerate:
                         run.count("nearest_degenerate")
+                        continue
+                    if vname != "exact" and gap < 12 * nu:
+                        # |d cos| <= 2 nu for the perturbed pair; a neighbouring class closer than that (with margin)
+                        # may legitimately be the nearest one
+                        run.count("perturbed_nearest_skipped_close_class")
+                        continue
+                    run.count("nearest_nondegenerate" if vname == "exact" else "nearest_nondegenerate_perturbed")
+                    if not equivalent(u, UB_t, eqtol):
+                        run.violation("orient:nearest:not-equivalent",
+                                      "orient().UBI is not lattice-equivalent to the generating grain although the "
+                                      "angle class is non-degenerate (h1=%r h2=%r, %s g-vectors, |M-round(M)| max %.3g, allowed %.3g)"
+                                      % (h1.tolist(), h2.tolist(), vname,
+                                         np.abs(u @ UB_t - np.round(u @ UB_t)).max(), eqtol), mdesc)
+            # module-level Busing-Levy (python twin of BTmat + quickorient): the true pair gives the true orientation
+            ubi_bl, ub_bl = unitcell.orient_BL(B, h1, h2, UB_t @ h1, UB_t @ h2)
+            run.count("orient_BL_calls")
+            if not equivalent(np.asarray(ubi_bl, float), UB_t) or \
+                    np.abs(np.asarray(ubi_bl) @ np.asarray(ub_bl) - np.eye(3)).max() > 1e-9 or \
+                    np.abs(np.asarray(ubi_bl) @ UB_t - np.eye(3)).max() > 1e-6:
+                run.violation("orient_BL", "unitcell.orient_BL(B, h1, h2, g1, g2) with the true indices does not return the "
+                              "generating UBI", desc)
 
 
 def check(run, replay=None):
     from ImageD11 import unitcell
+    # observe (not replace) the de-duplication step: how many candidates went in and came out of ubi_equiv
+    orig_equiv = unitcell.ubi_equiv
+
+    def counting_equiv(ubilist, ublist, *a, **k):
+        out = orig_equiv(ubilist, ublist, *a, **k)
+        if len(out) < len(ubilist):
+            run.count("range_calls_where_ubi_equiv_removed_candidates")
+            run.count("candidates_removed_by_ubi_equiv", len(ubilist) - len(out))
+        return out
+    unitcell.ubi_equiv = counting_equiv
+    try:
+        return check_(run, replay, unitcell)
+    finally:
+        unitcell.ubi_equiv = orig_equiv
+
+
+def check_(run, replay, unitcell):
+    run.assumptions += [
+        "near-collinear pairs (|cos| >= 0.98) are not offered to orient (filter_pairs documents that it drops them)",
+        "perturbed g-vectors: nearest mode is only judged when no other angle class lies within 12x the perturbation",
+    ]
     if replay is not None:
         one_case(run, replay["seed"], replay["case"]["index"], unitcell)
         run.nontrivial.update(["replay", "replay2"])
         return
-    n = 40 if run.tier == "quick" else 160
+    n = 60 if run.tier == "quick" else 160
     for idx in range(n):
         one_case(run, run.seed, idx, unitcell)
     run.require_counter("orient_calls", 500)
     run.require_counter("nearest_nondegenerate", 50)
     run.require_counter("nearest_degenerate", 5)
     run.require_counter("rering_history_steps", 5)
+    run.require_counter("centring:R", 1)
+    run.require_counter("ringpairs_with_every_subclass_tested", 50)
+    run.require_counter("ringpairs_beyond_ring_8", 10)
+    run.require_counter("nearest_nondegenerate_perturbed", 50)
+    run.require_counter("range_calls_with_several_candidates", 100)
+    for c_ in CRANGES:
+        run.require_counter("range_calls:crange=%g" % c_, 100)
+    run.require_counter("range_calls_where_ubi_equiv_removed_candidates", 50)
+    run.require_counter("anglehkl_tables_checked", 50)
+    run.require_counter("orient_BL_calls", 100)
+    for k_ in ("identity", "axis90", "pi"):
+        run.require_counter("rotation:" + k_, 1)
